@@ -54,12 +54,12 @@ pub fn scenarios_for(prop: &str) -> Vec<&'static str> {
 /// (property, tier) only, so evidence and findings are reproducible.
 pub fn run_count(prop: &str, scenario: &str, tier: &str) -> u64 {
     let quick: u64 = match (prop, scenario) {
-        ("C01", "hist") => 90_000,
+        ("C01", "hist") => 70_000,
         ("C01", "registry") => 20_000,
         ("C01", "replica") => 20_000,
         ("C06", "hist") => 24_000,
         ("C07", "replica") => 40_000,
-        ("C10", "hist") => 80_000,
+        ("C10", "hist") => 60_000,
         ("C12", "hist") => 80_000,
         ("C16", "scratch") => 30_000,
         ("C17", "scratch") => 40_000,
